@@ -56,6 +56,9 @@ type Fixture struct {
 	PubPass  []byte
 	PrivPass []byte
 	Birthday time.Time
+	// PerAccount adds the per-account views of the balance to CheckBalances
+	// (for harnesses that neither lease nor lock outputs).
+	PerAccount bool
 	// StallIsViolation: for the properties that promise a wallet that keeps
 	// following its backend, a notification handler the runtime reports
 	// blocked for minutes is a violation, not an inconclusive run.
